@@ -14,7 +14,7 @@ PROP = 'C02'
 
 BAND = {'quick': dict(Ns=range(1, 7), Qs=[(1, 1), (2, 1), (3, 1), (3, 2), (5, 4), (4, 3)]),
         'thorough': dict(Ns=range(1, 11), Qs=[(1, 1), (2, 1), (3, 1), (3, 2), (5, 4), (4, 3), (5, 2), (7, 4)])}
-FFT = {'quick': dict(Ns=range(1, 7), Qs=[(1, 1), (2, 1), (3, 1)]),
+FFT = {'quick': dict(Ns=range(1, 7), Qs=[(1, 1), (2, 1), (3, 1), (3, 2), (5, 4)]),
        'thorough': dict(Ns=range(1, 10), Qs=[(1, 1), (2, 1), (3, 1), (4, 1), (3, 2)])}
 FS = {'quick': dict(shapes=[(1, 1), (2, 3), (4, 4), (5, 4), (3, 6)], lams=[(1, 2), (633, 1000)], dxs=[(1, 4), (1, 1)],
                     zs=[(0, 1), (1, 1), (-1, 1), (5, 2), (-5, 2), (3, 1)]),
@@ -144,6 +144,42 @@ def replay_fft(rec, ctx, np, precision=64):
                  'shape=%s Q=%s: %s' % ((r['n'], c['n']), Q, m), rec)
 
 
+def replay_fs_far(ctx, np):
+    """FreeSpace.tla's algebra (every entry of the transfer function is a root of unity: unit modulus; distances add; the
+    negated distance undoes) at distances far beyond the exact menu, where only the laws -- not the phase tables -- are
+    compared: aliasing-scale distances z >> N dx^2 / lambda are ordinary inputs."""
+    from prysm import propagation as P
+    rng = np.random.RandomState(ctx.seed + 17)
+    for shp, lam, dx, zs in (((6, 8), 0.6328, 0.01, (5.0, 50.0, 2000.0)), ((5, 4), 0.5, 0.25, (1e3, 1e5)), ((7, 7), 1.55, 0.05, (300.0, 4e4))):
+        f = rng.normal(size=shp) + 1j * rng.normal(size=shp)
+        for z in zs:
+            try:
+                tf = np.asarray(P.angular_spectrum_transfer_function(shp, lam, dx, z))
+                tfn = np.asarray(P.angular_spectrum_transfer_function(shp, lam, dx, -z))
+                tf2 = np.asarray(P.angular_spectrum_transfer_function(shp, lam, dx, 2 * z))
+                g = np.asarray(P.angular_spectrum(f.copy(), lam, dx, z, Q=1))
+                back = np.asarray(P.angular_spectrum(g.copy(), lam, dx, -z, Q=1))
+                msgs = []
+                if core.maxabs(np.abs(tf) - 1) > 1e-9:
+                    msgs.append(('unit-modulus', 'max ||H| - 1| = %.3g' % core.maxabs(np.abs(tf) - 1)))
+                if core.maxabs(tf * tfn - 1) > 1e-6:
+                    msgs.append(('negated-distance', 'H(z) H(-z) != 1 (%.3g)' % core.maxabs(tf * tfn - 1)))
+                if core.maxabs(tf * tf - tf2) > 1e-6:
+                    msgs.append(('additive', 'H(z)^2 != H(2z) (%.3g)' % core.maxabs(tf * tf - tf2)))
+                if abs(float((np.abs(g) ** 2).sum()) - float((np.abs(f) ** 2).sum())) > 1e-9 * float((np.abs(f) ** 2).sum()):
+                    msgs.append(('energy', 'energy %r -> %r' % (float((np.abs(f) ** 2).sum()), float((np.abs(g) ** 2).sum()))))
+                if core.maxabs(back - f) > 1e-6:
+                    msgs.append(('undo', 'propagating by -z does not return the field (%.3g)' % core.maxabs(back - f)))
+                for kind, m in msgs:
+                    ctx.fail('FreeSpace:far:%s' % kind, 'shape=%s lambda=%g dx=%g z=%g: %s' % (shp, lam, dx, z, m), {'far': [list(shp), lam, dx, z]})
+            except Exception as ex:
+                import traceback
+                if not any('/prysm/' in fr_.filename for fr_ in traceback.extract_tb(ex.__traceback__)):
+                    raise
+                ctx.fail('FreeSpace:far:raised', 'shape=%s z=%g: %s: %s' % (shp, z, type(ex).__name__, ex), {'far': [list(shp), lam, dx, z]})
+            ctx.replayed(1, key=('far', shp, z))
+
+
 def replay_fs(rec, ctx, np, precision=64):
     from prysm import propagation as P
     shp = tuple(rec['shape'])
@@ -209,7 +245,9 @@ def run(ctx, replay=None, selftest=False):
         rec = json.load(open(replay))['record']
         c, d = D.dft_cfg('axis', [2], [2], [(1, 1)], [(0, 1)], invs=('UnitaryLaw', 'RoundTripLaw'))
         ctx.tlc('Dft', c, defs=d, name='replay-smoke', emit=False)
-        if 'phi1' in rec:
+        if 'far' in rec:
+            replay_fs_far(ctx, np)
+        elif 'phi1' in rec:
             replay_fs(rec, ctx, np)
         elif rec.get('kind') == 'fft':
             replay_fft(rec, ctx, np)
@@ -248,6 +286,7 @@ def run(ctx, replay=None, selftest=False):
                 replay_fs(rec, ctx, np, p)
     finally:
         config.precision = 64
+    replay_fs_far(ctx, np)
     if selftest:
         # binding: a transfer function with a 0.1% wrong wavelength must be rejected by the value comparison
         rec = next(r for r in rs.records if r['z1'][0] != 0 and r['shape'][0] > 2)
